@@ -1,5 +1,5 @@
 (* obligation: the generator model reproduces the three committed generated files byte for byte *)
-From Spdx Require Import Spec.TablesSpec Gen.SpdxJson Gen.Files.
+From Spdx Require Import Spec.TablesSpec Gen.SpdxJson Gen.Files Gen.Template.
 Lemma chk_files_regenerate_shipped :
-  chk_files_regenerate file_get_licenses file_get_deprecated file_get_exceptions json_licenses json_exceptions = true.
+  chk_files_regenerate tpl_licenses tpl_deprecated tpl_exceptions file_get_licenses file_get_deprecated file_get_exceptions json_licenses json_exceptions = true.
 Proof. vm_compute. reflexivity. Qed.
